@@ -24,6 +24,11 @@ type Message struct {
 // contain those control frames at first, and then result of gluing fragments.
 //
 // TODO(gobwas): add DefaultReader with buffer size options.
+// maxMessagePrealloc limits how much memory ReadMessage allocates up front on
+// the word of the frame header, which is under control of the peer. Bigger
+// payloads are collected as the bytes actually arrive.
+const maxMessagePrealloc = 1 << 20
+
 func ReadMessage(r io.Reader, s ws.State, m []Message) ([]Message, error) {
 	rd := Reader{
 		Source:    r,
@@ -43,7 +48,7 @@ func ReadMessage(r io.Reader, s ws.State, m []Message) ([]Message, error) {
 		return m, err
 	}
 	var p []byte
-	if h.Fin {
+	if h.Fin && h.Length <= maxMessagePrealloc {
 		// No more frames will be read. Use fixed sized buffer to read payload.
 		p = make([]byte, h.Length)
 		// It is not possible to receive io.EOF here because Reader does not
